@@ -317,6 +317,7 @@ def main(ctx):
         "states": st, "transitions": tr, "traces_validated_against_impl": rep,
         "rwlock": details,
         "curve_preemption_points_explored": agg2.extra.get("preemption_points", 0),
+        "curve_two_preemption_schedules": agg2.extra.get("two_preemption_schedules", 0),
         "explanation": "states/transitions: reachable states and executed transitions of the real RWLock under the controlled scheduler, summed over "
                        "configurations; traces_validated_against_impl: edges of the TLC model graph replayed in lock-step on the implementation graph; "
                        "curve part: one execution per (scenario, operation pair, preemption point)",
